@@ -5,11 +5,13 @@ package hs
 
 import (
 	"context"
+	"database/sql"
 	"errors"
 	"fmt"
 	"io"
 	"log/slog"
 	"net"
+	"os"
 
 	wire "github.com/jeroenrinzema/psql-wire"
 	"github.com/jeroenrinzema/psql-wire/codes"
@@ -69,8 +71,12 @@ type Wrap struct {
 	Fn   string
 }
 
+// Causes are standard-library errors a real handler's failure plausibly is or wraps (index 0: none).
+var Causes = []error{nil, io.EOF, io.ErrUnexpectedEOF, net.ErrClosed, context.Canceled, context.DeadlineExceeded, os.ErrDeadlineExceeded, sql.ErrNoRows}
+
 type ErrSpec struct {
 	Base  string
+	Cause int    // index into Causes: the base error wraps it ("Base: cause"), or is it (empty Base)
 	Wraps []Wrap // innermost first
 	// Pre, when set, is an already built error value carrying Wraps[:PreN] (a shared
 	// sentinel that several reports decorate further); Build continues from it.
@@ -80,6 +86,12 @@ type ErrSpec struct {
 
 func (e *ErrSpec) Build() error {
 	var err error = errors.New(e.Base)
+	if cause := Causes[e.Cause%len(Causes)]; cause != nil {
+		err = cause
+		if e.Base != "" {
+			err = fmt.Errorf("%s: %w", e.Base, cause)
+		}
+	}
 	ws := e.Wraps
 	if e.Pre != nil {
 		err, ws = e.Pre, e.Wraps[e.PreN:]
@@ -110,7 +122,7 @@ func (e *ErrSpec) Build() error {
 func (e *ErrSpec) Expect() map[byte]string {
 	f := map[byte]string{'S': "ERROR", 'C': "XXUUU", 'M': e.Base}
 	has := map[byte]bool{}
-	msg := e.Base
+	msg := e.BaseText()
 	for _, w := range e.Wraps {
 		if w.K == 'w' {
 			msg = w.S + ": " + msg
@@ -153,8 +165,19 @@ func (e *ErrSpec) Expect() map[byte]string {
 	return f
 }
 
+// BaseText is the text of the innermost error.
+func (e *ErrSpec) BaseText() string {
+	if cause := Causes[e.Cause%len(Causes)]; cause != nil {
+		if e.Base == "" {
+			return cause.Error()
+		}
+		return e.Base + ": " + cause.Error()
+	}
+	return e.Base
+}
+
 func (e *ErrSpec) String() string {
-	s := fmt.Sprintf("err(%q", e.Base)
+	s := fmt.Sprintf("err(%q", e.BaseText())
 	for _, w := range e.Wraps {
 		s += fmt.Sprintf(" %c=%q", w.K, w.S)
 		if w.K == 'o' {
@@ -187,6 +210,7 @@ type CopyPlan struct {
 type Stmt struct {
 	ID          string
 	Cols        wire.Columns
+	Define      wire.Columns // not declared with the statement: the handler announces them itself through DataWriter.Define
 	Params      []oid.Oid
 	ParseParams bool // use wire.ParseParameters(query) for the declared parameters
 	Ops         []Op
@@ -202,7 +226,7 @@ type Sess struct {
 	Progs   map[string]*Prog
 	Default func(query string) *Prog
 	OnExec  func(ctx context.Context, st *Stmt, w wire.DataWriter, params []wire.Parameter) // optional extra observer
-	Ctxs    []context.Context                                                                // command contexts captured by callbacks
+	Ctxs    []context.Context                                                               // command contexts captured by callbacks
 	KeepCtx bool
 }
 
@@ -271,6 +295,8 @@ func Parse(ctx context.Context, query string) (wire.PreparedStatements, error) {
 		opts := []wire.PreparedOptionFn{}
 		if st.Cols != nil {
 			opts = append(opts, wire.WithColumns(st.Cols))
+		} else if st.Define != nil && !HasDefine {
+			opts = append(opts, wire.WithColumns(st.Define)) // this tree's writer has no Define: declare them
 		}
 		if st.ParseParams {
 			opts = append(opts, wire.WithParameters(wire.ParseParameters(query)))
@@ -283,6 +309,13 @@ func Parse(ctx context.Context, query string) (wire.PreparedStatements, error) {
 	}
 	return out, nil
 }
+
+// HasDefine: the library's data writer offers Define (a method of the concrete type, not of the
+// DataWriter interface) for handlers that announce their columns at execution time.
+var HasDefine = func() bool {
+	_, ok := wire.NewDataWriter(context.Background(), nil, nil, nil, nil).(interface{ Define(wire.Columns) error })
+	return ok
+}()
 
 func runStmt(ctx context.Context, s *Sess, st *Stmt, w wire.DataWriter, params []wire.Parameter) (ret error) {
 	c := ConnOf(ctx)
@@ -315,6 +348,15 @@ func runStmt(ctx context.Context, s *Sess, st *Stmt, w wire.DataWriter, params [
 		}
 		c.CB("execend", e)
 	}()
+	if dw, ok := w.(interface{ Define(wire.Columns) error }); ok && st.Define != nil && HasDefine {
+		if err := dw.Define(st.Define); err != nil {
+			c.CB("define", err.Error())
+			return err
+		}
+		if got := w.Columns(); len(got) != len(st.Define) {
+			c.CB("define", fmt.Sprintf("Columns() reports %d columns after Define of %d", len(got), len(st.Define)))
+		}
+	}
 	for i, op := range st.Ops {
 		r := OpRes{Stmt: st.ID, Idx: i, K: op.K, W0: c.WOff()}
 		var err error
